@@ -24,6 +24,10 @@ def run(ctx: Ctx, chk) -> None:
         for f in fl:
             funcs.append(f)
             funcs.extend(f.nested.values())
+    # a canceller written as a private callable class / function of the module instead of a closure
+    for f in ctx.prog.all_functions():
+        if f.module is pers.module and f not in funcs and f.cls is not pers:
+            funcs.append(f)
     n = lifecycle.life1(ctx, chk, rule, funcs)
     chk.floor(rule, "cancel-then-await sites in Persistence", n, 1)
     chk.run_rule(life2, ctx)
@@ -56,6 +60,26 @@ def _no_exit_stack(ctx: Ctx, f, rule: str) -> None:
             raise AnalysisError(f"{rule}: {f.qualname} tears down through an exit stack (callbacks registered at run time) - not modelled by the path rules")
 
 
+_CN = [None]
+
+
+def _use(ctx: Ctx, f) -> None:
+    """Texts in this module are compared after writing out walrus targets and locals bound once
+    (`if persistence := self.persistence: await persistence.stop()`), relative to function f."""
+    from ..prov import Canon
+
+    _CN[0] = Canon(ctx.I, f, "")
+
+
+def _t(e) -> str:
+    if _CN[0] is None:
+        return norm(e)
+    try:
+        return _CN[0].canon(e)
+    except Exception:  # noqa: BLE001
+        return norm(e)
+
+
 def _calls(g: CFG, pred):
     return [n for n in g.nodes if n.ast is not None and n.kind in ("stmt", "test", "with-enter") and any(isinstance(x, ast.Call) and pred(x) for p in n.parts() for x in ast.walk(p))]
 
@@ -68,11 +92,12 @@ def enter_order(ctx: Ctx, chk) -> None:
     if f is None:
         raise AnalysisError("anchor vanished: Gateway.__aenter__")
     f = ctx.inl(f)
+    _use(ctx, f)
     _no_exit_stack(ctx, f, rule)
     g = CFG(f.node)
-    loads = _calls(g, lambda c: norm(c.func) == "self.persistence.load")
-    starts = _calls(g, lambda c: norm(c.func) == "self.persistence.start")
-    conns = _calls(g, lambda c: norm(c.func) == "self.transport.connect")
+    loads = _calls(g, lambda c: _t(c.func) == "self.persistence.load")
+    starts = _calls(g, lambda c: _t(c.func) == "self.persistence.start")
+    conns = _calls(g, lambda c: _t(c.func) == "self.transport.connect")
     chk.instance(rule)
     key = f"{f.fq}::load-before-start"
     if not loads or not starts:
@@ -101,7 +126,7 @@ def enter_order(ctx: Ctx, chk) -> None:
 
         # tests the step really depends on (one branch of the test cannot reach it), not merely earlier tests
         tests = [t for t in g.nodes if t.kind == "test" and g.dominates(t, n) and branch_polarity(g, t, [n]) is not None]
-        if any(norm(t.ast) not in PERS_POS + PERS_NEG for t in tests):
+        if any(_t(t.ast) not in PERS_POS + PERS_NEG for t in tests):
             ok = False
     if ok:
         chk.ok(rule, key, "conditional only on a configured persistence", f.where, sample=False)
@@ -112,7 +137,7 @@ def enter_order(ctx: Ctx, chk) -> None:
 def _awaited(ctx: Ctx, node, func_txt: str) -> bool:
     for p in node.parts():
         for x in ast.walk(p):
-            if isinstance(x, ast.Await) and isinstance(x.value, ast.Call) and norm(x.value.func) == func_txt:
+            if isinstance(x, ast.Await) and isinstance(x.value, ast.Call) and _t(x.value.func) == func_txt:
                 return True
     return False
 
@@ -122,14 +147,14 @@ PERS_NEG = ("not self.persistence", "self.persistence is None")
 
 
 def _is_persistence_test(t) -> bool:
-    return t.kind == "test" and norm(t.ast) in PERS_POS + PERS_NEG
+    return t.kind == "test" and _t(t.ast) in PERS_POS + PERS_NEG
 
 
 def _succ_feasible(n, configured: bool = True):
     """Successors, skipping the `persistence not configured` branch."""
     out = []
     for s, lab in n.succ:
-        if configured and _is_persistence_test(n) and lab == ("f" if norm(n.ast) in PERS_POS else "t"):
+        if configured and _is_persistence_test(n) and lab == ("f" if _t(n.ast) in PERS_POS else "t"):
             continue
         out.append((s, lab))
     return out
@@ -158,10 +183,11 @@ def life2(ctx: Ctx, chk) -> None:
     chk.rule(rule, "release on failed entry: after persistence.start() every statement of __aenter__ that can raise is covered by a handler/finally that stops the saver before the error propagates (no background task is left behind when connecting fails)")
     gw = ctx.cls(GW)
     f = ctx.inl(gw.find_method("__aenter__"))
+    _use(ctx, f)
     _no_exit_stack(ctx, f, rule)
     g = CFG(f.node)
-    starts = _calls(g, lambda c: norm(c.func) == "self.persistence.start")
-    stops = _calls(g, lambda c: norm(c.func) in ("self.persistence.stop",) or norm(c.func).endswith("._cancel_save"))
+    starts = _calls(g, lambda c: _t(c.func) == "self.persistence.start")
+    stops = _calls(g, lambda c: _t(c.func) in ("self.persistence.stop",) or _t(c.func).endswith("._cancel_save"))
     if not starts:
         return
     n = 0
@@ -202,10 +228,11 @@ def life3(ctx: Ctx, chk) -> None:
     if f is None:
         raise AnalysisError("anchor vanished: Gateway.__aexit__")
     f = ctx.inl(f)
+    _use(ctx, f)
     _no_exit_stack(ctx, f, rule)
     g = CFG(f.node)
-    disc = _calls(g, lambda c: norm(c.func) == "self.transport.disconnect")
-    stops = _calls(g, lambda c: norm(c.func) == "self.persistence.stop")
+    disc = _calls(g, lambda c: _t(c.func) == "self.transport.disconnect")
+    stops = _calls(g, lambda c: _t(c.func) == "self.persistence.stop")
     chk.instance(rule)
     key = f"{f.fq}::disconnect"
     if not disc or not all(_awaited(ctx, d, "self.transport.disconnect") for d in disc):
@@ -235,6 +262,39 @@ def life3(ctx: Ctx, chk) -> None:
         d, p = bad
         kind = "exceptional" if p[-1] is g.raise_exit else "normal"
         chk.refute(rule, key, f"a {kind} exit of __aexit__ is reachable from transport.disconnect() without persistence.stop() ({' -> '.join(g.path_text(p)[:4])}): when disconnect fails the final registry is not saved and the saver task is left running", ctx.loc(f, d.ast))
+
+
+def _class_canceller(ctx: Ctx, f, tname: str) -> str | None:
+    """`self._cancel_save = C(<task>)` with C a repository class whose __call__ cancels the task it stored:
+    the closure form written as a callable class.  Returns a description or None."""
+    from ..prov import Canon
+
+    for x in ctx.own_nodes(f):
+        if not (isinstance(x, ast.Assign) and norm(x.targets[0]) == "self._cancel_save" and isinstance(x.value, ast.Call) and isinstance(x.value.func, (ast.Name, ast.Attribute))):
+            continue
+        d = ctx.prog.resolve_expr(f.module, x.value.func)
+        if d is None or d.kind != "class":
+            continue
+        c = d.obj
+        call = c.find_method("__call__")
+        init = c.find_method("__init__")
+        if call is None or init is None:
+            continue
+        stored = ctx.I.stored_params(c)  # param -> attribute
+        pos = init.positional_params[1:]
+        given = dict(zip(pos, x.value.args))
+        for k in x.value.keywords:
+            if k.arg:
+                given[k.arg] = k.value
+        attrs = [stored[p] for p, a in given.items() if p in stored and isinstance(a, ast.Name) and a.id == tname]
+        if not attrs:
+            continue
+        cn = Canon(ctx.I, call, "")
+        selfn = call.positional_params[0]
+        for n in ctx.own_nodes(call):
+            if isinstance(n, ast.Call) and isinstance(n.func, ast.Attribute) and n.func.attr == "cancel" and cn.canon(n.func.value) in [f"{selfn}.{a}" for a in attrs]:
+                return f"{c.name}({tname}) is installed as self._cancel_save; its __call__ cancels the stored task"
+    return None
 
 
 def stop1(ctx: Ctx, chk) -> None:
@@ -300,6 +360,8 @@ def stop1(ctx: Ctx, chk) -> None:
                         stores = [x for x in ctx.own_nodes(f) if isinstance(x, ast.Assign) and norm(x.targets[0]) == "self._cancel_save" and norm(x.value) == h.name]
                         if stores or h is stop:
                             ok = True
+            if not ok and _class_canceller(ctx, f, tname):
+                ok = True
         if ok:
             chk.ok(rule, key, f"{tname}.cancel() is installed as self._cancel_save and awaited by stop()", ctx.loc(f, c))
         else:
@@ -541,6 +603,8 @@ def tasks1(ctx: Ctx, chk) -> None:
                     for x in ctx.own_nodes(h):
                         if isinstance(x, ast.Call) and norm(x.func) == f"{tname}.cancel":
                             cancels = True
+            if not cancels and tname and _class_canceller(ctx, f, tname):
+                cancels = True
             if cancels:
                 chk.ok(rule, key, f"{kind}: task bound to {tname}, cancelled by the registered cancel callback", ctx.loc(f, node))
             else:
